@@ -9,13 +9,13 @@ import (
 	"strings"
 	"time"
 
+	"go4.org/types"
 	"perkeep.org/pkg/blob"
 	"perkeep.org/pkg/index"
 	"perkeep.org/pkg/schema"
 	"perkeep.org/pkg/search"
 	"perkeep.org/pkg/sorted"
 	"perkeep.org/pkg/test"
-	"go4.org/types"
 )
 
 func init() { props["C07"] = runC07 }
